@@ -333,6 +333,10 @@ def cases(draw, max_nodes, max_steps):
         subs = [gi for gi in range(1, len(desc['groups'])) if any(_inside(desc, nd['g'], gi) for nd in desc['nodes'])]
         if subs and draw(st.booleans()):
             desc['groups'][draw(st.sampled_from(subs))]['sname'] = 'Stage8'
+    for desc in circuits:
+        for nd in desc['nodes']:
+            if nd['op'] == 'Add' and nd['args'][0] == nd['args'][1]:
+                nd['op'] = 'Sub'      # known finding c01-aliased-ports (C01's business) excluded by construction
     i = st.integers(0, 40)
     steps = []
     for _ in range(draw(st.integers(2, max_steps))):
